@@ -425,6 +425,18 @@ impl Local {
     pub(crate) fn schedule_collection(&self) {
         self.must_collect.set(true);
         if self.collecting.get() {
+            self.repin_in_collection(0);
+        }
+    }
+
+    /// Re-pins in the current global epoch on behalf of code that runs inside a collection and
+    /// holds `own` guards whose critical section it may restart (none for the collection loop,
+    /// one for the cascade). Does nothing when the thread holds any other guard - one that a
+    /// deferred function works under, or has kept: a critical section lasts until its last
+    /// guard is dropped.
+    pub(crate) fn repin_in_collection(&self, own: usize) {
+        // The guard whose drop runs the collection is still counted.
+        if self.guard_count.get() == own + self.collecting.get() as usize {
             self.repin_without_collect();
         }
     }
@@ -519,7 +531,7 @@ impl Local {
                 debug_assert!(self.epoch.load(Ordering::Relaxed).is_pinned());
                 let guard = ManuallyDrop::new(Guard { local: self });
                 self.global().collect(&guard);
-                self.repin_without_collect();
+                self.repin_in_collection(0);
             }
             self.collecting.set(false);
         }
